@@ -270,14 +270,161 @@ fn parse_op(toks: &[&str]) -> Option<Op> {
     })
 }
 
-/// Optional extra indirection around a freshly built adaptor: `Box<S>` for a sized `S` that is
-/// itself a `Box<dyn TensorMut>` (exercises both `Box` impls of views/traits.rs).
-fn wrap<const D: usize>(x: Dyn<D>, via: &str) -> Dyn<D> {
-    if via.ends_with("+box") {
-        let inner: Box<Dyn<D>> = Box::new(x);
-        inner
+/// Boxes a freshly built adaptor.  With `+box` behind a second, *sized* box (`Box<S>` impl of
+/// views/traits.rs, next to the `Box<dyn TensorMut>` one); with `+mutview` behind
+/// `TensorView::<_, &mut S, D>::from(&mut TensorView)` (the `&mut S` forwarding impls).
+fn wrap<V: TensorMut<u64, D> + 'static, const D: usize>(v: V, via: &str) -> Dyn<D> {
+    if via.contains("+box") {
+        let inner: Box<V> = Box::new(v);
+        let outer: Box<Box<V>> = Box::new(inner);
+        outer
+    } else if via.contains("+mutview") {
+        let view: &'static mut TensorView<u64, V, D> = leak(TensorView::from(v));
+        let borrowed: TensorView<u64, &'static mut V, D> = <TensorView<u64, &'static mut V, D> as From<&'static mut TensorView<u64, V, D>>>::from(view);
+        Box::new(borrowed.source())
     } else {
-        x
+        Box::new(v)
+    }
+}
+
+thread_local! {
+    /// values leaked to obtain `&'static mut` receivers; dropped (latest first) when the case ends
+    static LEAKS: std::cell::RefCell<Vec<Box<dyn FnOnce()>>> = const { std::cell::RefCell::new(Vec::new()) };
+    /// 0: nothing, 1: look at `source_ref()` / `sources_ref()`, 2: take `source()` / `sources()`
+    /// out and rebuild, of the next adaptor built
+    static INSPECT: std::cell::Cell<u8> = const { std::cell::Cell::new(0) };
+    static INSPECTED: std::cell::RefCell<Vec<String>> = const { std::cell::RefCell::new(Vec::new()) };
+}
+
+fn leak<X: 'static>(x: X) -> &'static mut X {
+    let p: *mut X = Box::into_raw(Box::new(x));
+    LEAKS.with(|l| l.borrow_mut().push(Box::new(move || unsafe { drop(Box::from_raw(p)) })));
+    unsafe { &mut *p }
+}
+
+fn drop_leaks() {
+    loop {
+        let next = LEAKS.with(|l| l.borrow_mut().pop());
+        match next {
+            Some(f) => f(),
+            None => break,
+        }
+    }
+}
+
+/// shape and the first 16 elements (row-major) of an inner view
+fn describe<S: TensorRef<u64, D>, const D: usize>(v: &S, limit: usize) -> String {
+    let shape = v.view_shape();
+    let lens: Vec<usize> = shape.iter().map(|d| d.1).collect();
+    let cells: Vec<String> = all_indexes(&lens)
+        .into_iter()
+        .take(limit)
+        .map(|idx| {
+            let idx: [usize; D] = crate::util::to_array(&idx);
+            show_cell_opt(v.get_reference(idx).copied())
+        })
+        .collect();
+    format!("shape={} cells={}", show_shape(&shape), cells.join(" "))
+}
+
+fn inspect<S: TensorRef<u64, D>, const D: usize>(v: &S) {
+    let d = describe(v, 16);
+    INSPECTED.with(|c| c.borrow_mut().push(d));
+}
+
+/// the accessors every single-source adaptor (except ranges / masks) offers
+trait HasSource {
+    type Src;
+    fn src_ref(&self) -> &Self::Src;
+    fn into_src(self) -> Self::Src;
+}
+impl<S: TensorRef<u64, D>, const D: usize, const I: usize> HasSource for TensorIndex<u64, S, D, I> {
+    type Src = S;
+    fn src_ref(&self) -> &S { self.source_ref() }
+    fn into_src(self) -> S { self.source() }
+}
+impl<S: TensorRef<u64, D>, const D: usize, const I: usize> HasSource for TensorExpansion<u64, S, D, I> {
+    type Src = S;
+    fn src_ref(&self) -> &S { self.source_ref() }
+    fn into_src(self) -> S { self.source() }
+}
+impl<S: TensorRef<u64, D>, const D: usize> HasSource for TensorRename<u64, S, D> {
+    type Src = S;
+    fn src_ref(&self) -> &S { self.source_ref() }
+    fn into_src(self) -> S { self.source() }
+}
+impl<S: TensorRef<u64, D>, const D: usize> HasSource for TensorReverse<u64, S, D> {
+    type Src = S;
+    fn src_ref(&self) -> &S { self.source_ref() }
+    fn into_src(self) -> S { self.source() }
+}
+impl<S: TensorRef<u64, D>, const D: usize> HasSource for TensorAccess<u64, S, D> {
+    type Src = S;
+    fn src_ref(&self) -> &S { self.source_ref() }
+    fn into_src(self) -> S { self.source() }
+}
+impl<S: TensorRef<u64, D>, const D: usize> HasSource for TensorTranspose<u64, S, D> {
+    type Src = S;
+    fn src_ref(&self) -> &S { self.source_ref() }
+    fn into_src(self) -> S { self.source() }
+}
+
+/// Runs the pending inspection (if any) on a freshly built adaptor and boxes it.
+fn done<A, S, const DA: usize, const DS: usize>(a: A, rebuild: impl FnOnce(S) -> A, via: &str) -> Dyn<DA>
+where
+    A: HasSource<Src = S> + TensorMut<u64, DA> + 'static,
+    S: TensorRef<u64, DS>,
+{
+    let a = match INSPECT.with(|c| c.get()) {
+        1 => {
+            inspect(a.src_ref());
+            a
+        }
+        2 => {
+            let s = a.into_src();
+            inspect(&s);
+            rebuild(s)
+        }
+        _ => a,
+    };
+    wrap(a, via)
+}
+
+/// the bare tensor leaf of dimensionality `D` in an arena slot
+fn leaf_ptr<const D: usize>(arena: &[Leaf], slot: Option<usize>) -> Option<*mut Tensor<u64, D>> {
+    let leaf = &arena[slot?];
+    match (&leaf.ptr, D) {
+        (LeafPtr::T0(p), 0) => Some(p.cast()),
+        (LeafPtr::T1(p), 1) => Some(p.cast()),
+        (LeafPtr::T2(p), 2) => Some(p.cast()),
+        (LeafPtr::T3(p), 3) => Some(p.cast()),
+        (LeafPtr::T4(p), 4) => Some(p.cast()),
+        (LeafPtr::T5(p), 5) => Some(p.cast()),
+        (LeafPtr::T6(p), 6) => Some(p.cast()),
+        _ => None,
+    }
+}
+
+/// Who the adaptor is asked from: the constructor itself, or one of the convenience methods of
+/// `TensorView` (owned / `&mut` receiver) or of `Tensor` (owned / `&mut` receiver; only when the
+/// top of the stack is a bare tensor leaf).
+#[derive(Clone, Copy, PartialEq)]
+enum Recv {
+    Ctor,
+    ViewOwned,
+    ViewMut,
+    TensorMutRef,
+    TensorOwned,
+}
+
+fn receiver(via: &str) -> Recv {
+    let form = via.split('+').next().unwrap_or("");
+    match form {
+        "tv_owned" => Recv::ViewOwned,
+        "tv_mut" => Recv::ViewMut,
+        "t_mut" => Recv::TensorMutRef,
+        "t_owned" => Recv::TensorOwned,
+        _ => Recv::Ctor,
     }
 }
 
@@ -302,16 +449,53 @@ fn range_op<const D: usize>(
     named: &[(&'static str, usize, usize)],
     strict: bool,
     mask: bool,
+    leaf: Option<*mut Tensor<u64, D>>,
     via: &str,
 ) -> Result<Dyn<D>, Rej> {
     let form = via.split('+').next().unwrap_or("from");
     macro_rules! finish {
         ($e:expr) => {
             match $e {
-                Ok(v) => Ok(wrap(Box::new(v) as Dyn<D>, via)),
+                Ok(v) => Ok(wrap(v, via)),
                 Err(_) => Err(Rej::Reject),
             }
         };
+    }
+    // the convenience methods of TensorView / Tensor (lenient, named)
+    macro_rules! finish_view {
+        ($e:expr) => {
+            match $e {
+                Ok(view) => Ok(wrap(view.source(), via)),
+                Err(_) => Err(Rej::Reject),
+            }
+        };
+    }
+    let recv = receiver(via);
+    if recv != Recv::Ctor && !strict {
+        return with_p!(named.len(), P => {
+            let r: [(&'static str, IndexRange); P] =
+                std::array::from_fn(|i| (named[i].0, IndexRange::new(named[i].1, named[i].2)));
+            match (recv, leaf) {
+                (Recv::TensorMutRef, Some(p)) => {
+                    drop(src);
+                    let t: &'static mut Tensor<u64, D> = unsafe { &mut *p };
+                    if mask { finish_view!(t.mask_mut(r)) } else { finish_view!(t.range_mut(r)) }
+                }
+                (Recv::TensorOwned, Some(p)) => {
+                    drop(src);
+                    let t: Tensor<u64, D> = unsafe { (*p).clone() };
+                    if mask { finish_view!(t.mask_owned(r)) } else { finish_view!(t.range_owned(r)) }
+                }
+                (Recv::ViewMut, _) => {
+                    let view: &'static mut TensorView<u64, Dyn<D>, D> = leak(TensorView::from(src));
+                    if mask { finish_view!(view.mask_mut(r)) } else { finish_view!(view.range_mut(r)) }
+                }
+                _ => {
+                    let view = TensorView::from(src);
+                    if mask { finish_view!(view.mask_owned(r)) } else { finish_view!(view.range_owned(r)) }
+                }
+            }
+        });
     }
     if form == "from_all" {
         // positional form: only when the names are unique and all present (else the named form)
@@ -371,31 +555,56 @@ fn range_op<const D: usize>(
     })
 }
 
-fn index_op(src: DV, provided: &[(&'static str, usize)], via: &str) -> Result<DV, Rej> {
+fn index_op(src: DV, provided: &[(&'static str, usize)], arena: &[Leaf], prev_leaf: Option<usize>, via: &str) -> Result<DV, Rej> {
+    let recv = receiver(via);
     macro_rules! go {
         ($D:literal, $I:literal, $R:ident, $s:expr) => {{
             let arr: [(&'static str, usize); $I] = std::array::from_fn(|k| provided[k]);
             let v = TensorIndex::<u64, _, $D, $I>::from($s, arr);
-            Ok(DV::$R(wrap(Box::new(v), via)))
+            Ok(DV::$R(done(v, |s| TensorIndex::<u64, _, $D, $I>::from(s, arr), via)))
+        }};
+    }
+    // `select_owned` / `select_mut` of TensorView and of Tensor (one index at a time)
+    macro_rules! go1 {
+        ($D:literal, $R:ident, $s:expr) => {{
+            let arr: [(&'static str, usize); 1] = [provided[0]];
+            match (recv, leaf_ptr::<$D>(arena, prev_leaf)) {
+                (Recv::TensorMutRef, Some(p)) => {
+                    drop($s);
+                    let t: &'static mut Tensor<u64, $D> = unsafe { &mut *p };
+                    Ok(DV::$R(done(t.select_mut(arr).source(), |s| TensorIndex::<u64, _, $D, 1>::from(s, arr), via)))
+                }
+                (Recv::TensorOwned, Some(p)) => {
+                    drop($s);
+                    let t: Tensor<u64, $D> = unsafe { (*p).clone() };
+                    Ok(DV::$R(done(t.select_owned(arr).source(), |s| TensorIndex::<u64, _, $D, 1>::from(s, arr), via)))
+                }
+                (Recv::ViewMut, _) => {
+                    let view: &'static mut TensorView<u64, Dyn<$D>, $D> = leak(TensorView::from($s));
+                    Ok(DV::$R(done(view.select_mut(arr).source(), |s| TensorIndex::<u64, _, $D, 1>::from(s, arr), via)))
+                }
+                (Recv::Ctor, _) => go!($D, 1, $R, $s),
+                _ => Ok(DV::$R(done(TensorView::from($s).select_owned(arr).source(), |s| TensorIndex::<u64, _, $D, 1>::from(s, arr), via))),
+            }
         }};
     }
     match (src, provided.len()) {
-        (DV::D1(s), 1) => go!(1, 1, D0, s),
-        (DV::D2(s), 1) => go!(2, 1, D1, s),
+        (DV::D1(s), 1) => go1!(1, D0, s),
+        (DV::D2(s), 1) => go1!(2, D1, s),
         (DV::D2(s), 2) => go!(2, 2, D0, s),
-        (DV::D3(s), 1) => go!(3, 1, D2, s),
+        (DV::D3(s), 1) => go1!(3, D2, s),
         (DV::D3(s), 2) => go!(3, 2, D1, s),
         (DV::D3(s), 3) => go!(3, 3, D0, s),
-        (DV::D4(s), 1) => go!(4, 1, D3, s),
+        (DV::D4(s), 1) => go1!(4, D3, s),
         (DV::D4(s), 2) => go!(4, 2, D2, s),
         (DV::D4(s), 3) => go!(4, 3, D1, s),
         (DV::D4(s), 4) => go!(4, 4, D0, s),
-        (DV::D5(s), 1) => go!(5, 1, D4, s),
+        (DV::D5(s), 1) => go1!(5, D4, s),
         (DV::D5(s), 2) => go!(5, 2, D3, s),
         (DV::D5(s), 3) => go!(5, 3, D2, s),
         (DV::D5(s), 4) => go!(5, 4, D1, s),
         (DV::D5(s), 5) => go!(5, 5, D0, s),
-        (DV::D6(s), 1) => go!(6, 1, D5, s),
+        (DV::D6(s), 1) => go1!(6, D5, s),
         (DV::D6(s), 2) => go!(6, 2, D4, s),
         (DV::D6(s), 3) => go!(6, 3, D3, s),
         (DV::D6(s), 4) => go!(6, 4, D2, s),
@@ -405,36 +614,60 @@ fn index_op(src: DV, provided: &[(&'static str, usize)], via: &str) -> Result<DV
     }
 }
 
-fn expand_op(src: DV, extra: &[(usize, &'static str)], via: &str) -> Result<DV, Rej> {
+fn expand_op(src: DV, extra: &[(usize, &'static str)], arena: &[Leaf], prev_leaf: Option<usize>, via: &str) -> Result<DV, Rej> {
+    let recv = receiver(via);
     macro_rules! go {
         ($D:literal, $I:literal, $R:ident, $s:expr) => {{
             let arr: [(usize, &'static str); $I] = std::array::from_fn(|k| extra[k]);
             let v = TensorExpansion::<u64, _, $D, $I>::from($s, arr);
-            Ok(DV::$R(wrap(Box::new(v), via)))
+            Ok(DV::$R(done(v, |s| TensorExpansion::<u64, _, $D, $I>::from(s, arr), via)))
+        }};
+    }
+    macro_rules! go1 {
+        ($D:literal, $R:ident, $s:expr) => {{
+            let arr: [(usize, &'static str); 1] = [extra[0]];
+            match (recv, leaf_ptr::<$D>(arena, prev_leaf)) {
+                (Recv::TensorMutRef, Some(p)) => {
+                    drop($s);
+                    let t: &'static mut Tensor<u64, $D> = unsafe { &mut *p };
+                    Ok(DV::$R(done(t.expand_mut(arr).source(), |s| TensorExpansion::<u64, _, $D, 1>::from(s, arr), via)))
+                }
+                (Recv::TensorOwned, Some(p)) => {
+                    drop($s);
+                    let t: Tensor<u64, $D> = unsafe { (*p).clone() };
+                    Ok(DV::$R(done(t.expand_owned(arr).source(), |s| TensorExpansion::<u64, _, $D, 1>::from(s, arr), via)))
+                }
+                (Recv::ViewMut, _) => {
+                    let view: &'static mut TensorView<u64, Dyn<$D>, $D> = leak(TensorView::from($s));
+                    Ok(DV::$R(done(view.expand_mut(arr).source(), |s| TensorExpansion::<u64, _, $D, 1>::from(s, arr), via)))
+                }
+                (Recv::Ctor, _) => go!($D, 1, $R, $s),
+                _ => Ok(DV::$R(done(TensorView::from($s).expand_owned(arr).source(), |s| TensorExpansion::<u64, _, $D, 1>::from(s, arr), via))),
+            }
         }};
     }
     match (src, extra.len()) {
-        (DV::D0(s), 1) => go!(0, 1, D1, s),
+        (DV::D0(s), 1) => go1!(0, D1, s),
         (DV::D0(s), 2) => go!(0, 2, D2, s),
         (DV::D0(s), 3) => go!(0, 3, D3, s),
         (DV::D0(s), 4) => go!(0, 4, D4, s),
         (DV::D0(s), 5) => go!(0, 5, D5, s),
         (DV::D0(s), 6) => go!(0, 6, D6, s),
-        (DV::D1(s), 1) => go!(1, 1, D2, s),
+        (DV::D1(s), 1) => go1!(1, D2, s),
         (DV::D1(s), 2) => go!(1, 2, D3, s),
         (DV::D1(s), 3) => go!(1, 3, D4, s),
         (DV::D1(s), 4) => go!(1, 4, D5, s),
         (DV::D1(s), 5) => go!(1, 5, D6, s),
-        (DV::D2(s), 1) => go!(2, 1, D3, s),
+        (DV::D2(s), 1) => go1!(2, D3, s),
         (DV::D2(s), 2) => go!(2, 2, D4, s),
         (DV::D2(s), 3) => go!(2, 3, D5, s),
         (DV::D2(s), 4) => go!(2, 4, D6, s),
-        (DV::D3(s), 1) => go!(3, 1, D4, s),
+        (DV::D3(s), 1) => go1!(3, D4, s),
         (DV::D3(s), 2) => go!(3, 2, D5, s),
         (DV::D3(s), 3) => go!(3, 3, D6, s),
-        (DV::D4(s), 1) => go!(4, 1, D5, s),
+        (DV::D4(s), 1) => go1!(4, D5, s),
         (DV::D4(s), 2) => go!(4, 2, D6, s),
-        (DV::D5(s), 1) => go!(5, 1, D6, s),
+        (DV::D5(s), 1) => go1!(5, D6, s),
         _ => Err(Rej::Skip),
     }
 }
@@ -457,6 +690,46 @@ fn same_d<const D: usize>(sources: Vec<DV>, pick: impl Fn(DV) -> Option<Dyn<D>>)
     Ok(out)
 }
 
+/// `sources_ref()` / `sources()` of a stack or chain, for every arity: `$ctor` rebuilds the adaptor
+/// from the sources taken out.
+macro_rules! zip_inspect {
+    (array $a:ident, $ctor:expr) => {
+        match INSPECT.with(|c| c.get()) {
+            1 => {
+                for s in $a.sources_ref().iter() {
+                    inspect(s);
+                }
+                $a
+            }
+            2 => {
+                let sources = $a.sources();
+                for s in sources.iter() {
+                    inspect(s);
+                }
+                $ctor(sources)
+            }
+            _ => $a,
+        }
+    };
+    (tuple $a:ident, $ctor:expr, $($i:tt),+) => {
+        match INSPECT.with(|c| c.get()) {
+            1 => {
+                {
+                    let sources = $a.sources_ref();
+                    $( inspect(&sources.$i); )+
+                }
+                $a
+            }
+            2 => {
+                let sources = $a.sources();
+                $( inspect(&sources.$i); )+
+                $ctor(sources)
+            }
+            _ => $a,
+        }
+    };
+}
+
 fn stack_op(sources: Vec<DV>, along: (usize, &'static str), via: &str) -> Result<DV, Rej> {
     let n = sources.len();
     let tuple = via.starts_with("tuple") && n >= 2;
@@ -468,24 +741,39 @@ fn stack_op(sources: Vec<DV>, along: (usize, &'static str), via: &str) -> Result
                 match n {
                     2 => {
                         let s = (it.next().unwrap(), it.next().unwrap());
-                        Box::new(TensorStack::<u64, (_, _), $D>::from(s, along))
+                        let a = TensorStack::<u64, (_, _), $D>::from(s, along);
+                        Box::new(zip_inspect!(tuple a, |s| TensorStack::<u64, (_, _), $D>::from(s, along), 0, 1))
                     }
                     3 => {
                         let s = (it.next().unwrap(), it.next().unwrap(), it.next().unwrap());
-                        Box::new(TensorStack::<u64, (_, _, _), $D>::from(s, along))
+                        let a = TensorStack::<u64, (_, _, _), $D>::from(s, along);
+                        Box::new(zip_inspect!(tuple a, |s| TensorStack::<u64, (_, _, _), $D>::from(s, along), 0, 1, 2))
                     }
                     4 => {
                         let s = (it.next().unwrap(), it.next().unwrap(), it.next().unwrap(), it.next().unwrap());
-                        Box::new(TensorStack::<u64, (_, _, _, _), $D>::from(s, along))
+                        let a = TensorStack::<u64, (_, _, _, _), $D>::from(s, along);
+                        Box::new(zip_inspect!(tuple a, |s| TensorStack::<u64, (_, _, _, _), $D>::from(s, along), 0, 1, 2, 3))
                     }
                     _ => return Err(Rej::Skip),
                 }
             } else {
                 match n {
-                    1 => Box::new(TensorStack::<u64, [_; 1], $D>::from(to_array::<_, 1>(v), along)),
-                    2 => Box::new(TensorStack::<u64, [_; 2], $D>::from(to_array::<_, 2>(v), along)),
-                    3 => Box::new(TensorStack::<u64, [_; 3], $D>::from(to_array::<_, 3>(v), along)),
-                    4 => Box::new(TensorStack::<u64, [_; 4], $D>::from(to_array::<_, 4>(v), along)),
+                    1 => {
+                        let a = TensorStack::<u64, [_; 1], $D>::from(to_array::<_, 1>(v), along);
+                        Box::new(zip_inspect!(array a, |s| TensorStack::<u64, [_; 1], $D>::from(s, along)))
+                    }
+                    2 => {
+                        let a = TensorStack::<u64, [_; 2], $D>::from(to_array::<_, 2>(v), along);
+                        Box::new(zip_inspect!(array a, |s| TensorStack::<u64, [_; 2], $D>::from(s, along)))
+                    }
+                    3 => {
+                        let a = TensorStack::<u64, [_; 3], $D>::from(to_array::<_, 3>(v), along);
+                        Box::new(zip_inspect!(array a, |s| TensorStack::<u64, [_; 3], $D>::from(s, along)))
+                    }
+                    4 => {
+                        let a = TensorStack::<u64, [_; 4], $D>::from(to_array::<_, 4>(v), along);
+                        Box::new(zip_inspect!(array a, |s| TensorStack::<u64, [_; 4], $D>::from(s, along)))
+                    }
                     _ => return Err(Rej::Skip),
                 }
             };
@@ -511,24 +799,39 @@ fn chain_n<const D: usize>(v: Vec<Dyn<D>>, along: &'static str, via: &str) -> Re
         match n {
             2 => {
                 let s = (it.next().unwrap(), it.next().unwrap());
-                Box::new(TensorChain::<u64, (_, _), D>::from(s, along))
+                let a = TensorChain::<u64, (_, _), D>::from(s, along);
+                Box::new(zip_inspect!(tuple a, |s| TensorChain::<u64, (_, _), D>::from(s, along), 0, 1))
             }
             3 => {
                 let s = (it.next().unwrap(), it.next().unwrap(), it.next().unwrap());
-                Box::new(TensorChain::<u64, (_, _, _), D>::from(s, along))
+                let a = TensorChain::<u64, (_, _, _), D>::from(s, along);
+                Box::new(zip_inspect!(tuple a, |s| TensorChain::<u64, (_, _, _), D>::from(s, along), 0, 1, 2))
             }
             4 => {
                 let s = (it.next().unwrap(), it.next().unwrap(), it.next().unwrap(), it.next().unwrap());
-                Box::new(TensorChain::<u64, (_, _, _, _), D>::from(s, along))
+                let a = TensorChain::<u64, (_, _, _, _), D>::from(s, along);
+                Box::new(zip_inspect!(tuple a, |s| TensorChain::<u64, (_, _, _, _), D>::from(s, along), 0, 1, 2, 3))
             }
             _ => return Err(Rej::Skip),
         }
     } else {
         match n {
-            1 => Box::new(TensorChain::<u64, [_; 1], D>::from(to_array::<_, 1>(v), along)),
-            2 => Box::new(TensorChain::<u64, [_; 2], D>::from(to_array::<_, 2>(v), along)),
-            3 => Box::new(TensorChain::<u64, [_; 3], D>::from(to_array::<_, 3>(v), along)),
-            4 => Box::new(TensorChain::<u64, [_; 4], D>::from(to_array::<_, 4>(v), along)),
+            1 => {
+                let a = TensorChain::<u64, [_; 1], D>::from(to_array::<_, 1>(v), along);
+                Box::new(zip_inspect!(array a, |s| TensorChain::<u64, [_; 1], D>::from(s, along)))
+            }
+            2 => {
+                let a = TensorChain::<u64, [_; 2], D>::from(to_array::<_, 2>(v), along);
+                Box::new(zip_inspect!(array a, |s| TensorChain::<u64, [_; 2], D>::from(s, along)))
+            }
+            3 => {
+                let a = TensorChain::<u64, [_; 3], D>::from(to_array::<_, 3>(v), along);
+                Box::new(zip_inspect!(array a, |s| TensorChain::<u64, [_; 3], D>::from(s, along)))
+            }
+            4 => {
+                let a = TensorChain::<u64, [_; 4], D>::from(to_array::<_, 4>(v), along);
+                Box::new(zip_inspect!(array a, |s| TensorChain::<u64, [_; 4], D>::from(s, along)))
+            }
             _ => return Err(Rej::Skip),
         }
     };
@@ -613,12 +916,40 @@ fn names_op<const D: usize>(
     names: &[&'static str],
     posts: &[Post],
     stack: &mut Vec<DV>,
+    leaf: Option<*mut Tensor<u64, D>>,
     via: &str,
 ) -> Result<Dyn<D>, Rej>
 where
     Dyn<D>: Slot,
 {
+    let recv = receiver(via);
     if kind == "reverse" {
+        // the convenience methods of TensorView / Tensor
+        if posts.is_empty() && recv != Recv::Ctor {
+            return Ok(match (recv, leaf) {
+                (Recv::TensorMutRef, Some(p)) => {
+                    drop(src);
+                    let t: &'static mut Tensor<u64, D> = unsafe { &mut *p };
+                    let a = t.reverse_mut(names).source();
+                    done(a, |s| TensorReverse::from(s, names), via)
+                }
+                (Recv::TensorOwned, Some(p)) => {
+                    drop(src);
+                    let t: Tensor<u64, D> = unsafe { (*p).clone() };
+                    let a = t.reverse_owned(names).source();
+                    done(a, |s| TensorReverse::from(s, names), via)
+                }
+                (Recv::ViewMut, _) => {
+                    let view: &'static mut TensorView<u64, Dyn<D>, D> = leak(TensorView::from(src));
+                    let a = view.reverse_mut(names).source();
+                    done(a, |s| TensorReverse::from(s, names), via)
+                }
+                _ => {
+                    let a = TensorView::from(src).reverse_owned(names).source();
+                    done(a, |s| TensorReverse::from(s, names), via)
+                }
+            });
+        }
         let mut v = TensorReverse::from(src, names);
         for post in posts {
             match post {
@@ -626,7 +957,14 @@ where
                 Post::SetNames(_) => return Err(Rej::Skip),
             }
         }
-        return Ok(wrap(Box::new(v), via));
+        if !posts.is_empty() {
+            // the flags cannot be rebuilt from names once the source was swapped: only look
+            if INSPECT.with(|c| c.get()) != 0 {
+                inspect(v.source_ref());
+            }
+            return Ok(wrap(v, via));
+        }
+        return Ok(done(v, |s| TensorReverse::from(s, names), via));
     }
     if names.len() != D {
         return Err(Rej::Skip);
@@ -651,26 +989,59 @@ where
                 }
             }
             LAST_NAMES.with(|c| *c.borrow_mut() = show_names(v.get_names()));
-            wrap(Box::new(v), via)
+            let current: [&'static str; D] = *v.get_names();
+            done(v, |s| TensorRename::from(s, current), via)
         }
         "access" => {
-            if fallible {
-                match TensorAccess::try_from(src, arr) {
-                    Ok(v) => wrap(Box::new(v), via),
-                    Err(_) => return Err(Rej::Reject),
+            // `index_by_owned` / `index_by_mut` (and `index_owned` / `index_mut` when the order
+            // asked for is the view's own) of TensorView and Tensor
+            let own = {
+                let shape = src.view_shape();
+                (0..D).all(|i| shape[i].0 == arr[i])
+            };
+            match (recv, leaf) {
+                (Recv::TensorOwned, Some(p)) => {
+                    drop(src);
+                    let t: Tensor<u64, D> = unsafe { (*p).clone() };
+                    let a = if own { t.index_owned() } else { t.index_by_owned(arr) };
+                    done(a, |s| TensorAccess::from(s, arr), via)
                 }
-            } else {
-                wrap(Box::new(TensorAccess::from(src, arr)), via)
+                (Recv::TensorMutRef, Some(p)) => {
+                    drop(src);
+                    let t: &'static mut Tensor<u64, D> = unsafe { &mut *p };
+                    let a = if own { t.index_mut() } else { t.index_by_mut(arr) };
+                    done(a, |s| TensorAccess::from(s, arr), via)
+                }
+                (Recv::ViewMut, _) => {
+                    let view: &'static mut TensorView<u64, Dyn<D>, D> = leak(TensorView::from(src));
+                    let a = if own { view.index_mut() } else { view.index_by_mut(arr) };
+                    done(a, |s| TensorAccess::from(s, arr), via)
+                }
+                (Recv::ViewOwned, _) | (Recv::TensorOwned, None) | (Recv::TensorMutRef, None) => {
+                    let view = TensorView::from(src);
+                    let a = if own { view.index_owned() } else { view.index_by_owned(arr) };
+                    done(a, |s| TensorAccess::from(s, arr), via)
+                }
+                (Recv::Ctor, _) => {
+                    if fallible {
+                        match TensorAccess::try_from(src, arr) {
+                            Ok(v) => done(v, |s| TensorAccess::from(s, arr), via),
+                            Err(_) => return Err(Rej::Reject),
+                        }
+                    } else {
+                        done(TensorAccess::from(src, arr), |s| TensorAccess::from(s, arr), via)
+                    }
+                }
             }
         }
         "transpose" => {
             if fallible {
                 match TensorTranspose::try_from(src, arr) {
-                    Ok(v) => wrap(Box::new(v), via),
+                    Ok(v) => done(v, |s| TensorTranspose::from(s, arr), via),
                     Err(_) => return Err(Rej::Reject),
                 }
             } else {
-                wrap(Box::new(TensorTranspose::from(src, arr)), via)
+                done(TensorTranspose::from(src, arr), |s| TensorTranspose::from(s, arr), via)
             }
         }
         _ => unreachable!(),
@@ -679,7 +1050,7 @@ where
 
 /// Applies `op` to the stack.  On `Err` the stack may have lost the consumed sources (the caller
 /// rebuilds it from the recipe).
-fn apply_op(stack: &mut Vec<DV>, op: &mut Op, arena: &mut Vec<Leaf>, via: &str) -> Result<(), Rej> {
+fn apply_op(stack: &mut Vec<DV>, op: &mut Op, arena: &mut Vec<Leaf>, prev_leaf: Option<usize>, via: &str) -> Result<(), Rej> {
     match op {
         Op::Leaf { id, shape, slot } => {
             let d = shape.len();
@@ -703,7 +1074,13 @@ fn apply_op(stack: &mut Vec<DV>, op: &mut Op, arena: &mut Vec<Leaf>, via: &str) 
                         LeafPtr::$P(p) => unsafe { &mut *p },
                         _ => unreachable!(),
                     };
-                    stack.push(DV::$V(wrap(Box::new(r), via)));
+                    if via.starts_with("t_view_owned") {
+                        // `Tensor::view_owned` of a copy of the leaf
+                        let copy: Tensor<u64, $D> = (*r).clone();
+                        stack.push(DV::$V(wrap(copy.view_owned().source(), via)));
+                    } else {
+                        stack.push(DV::$V(wrap(r, via)));
+                    }
                 }};
             }
             match d {
@@ -787,7 +1164,7 @@ fn apply_op(stack: &mut Vec<DV>, op: &mut Op, arena: &mut Vec<Leaf>, via: &str) 
         }
         Op::Range { named, strict, mask } => {
             let top = stack.pop().ok_or(Rej::Skip)?;
-            let v = dv_same!(top, s => range_op(s, named, *strict, *mask, via))?;
+            let v = dv_same!(top, s => range_op(s, named, *strict, *mask, leaf_ptr(arena, prev_leaf), via))?;
             stack.push(v);
             Ok(())
         }
@@ -797,7 +1174,7 @@ fn apply_op(stack: &mut Vec<DV>, op: &mut Op, arena: &mut Vec<Leaf>, via: &str) 
                 stack.push(top);
                 return Err(Rej::Skip);
             }
-            let v = index_op(top, provided, via)?;
+            let v = index_op(top, provided, arena, prev_leaf, via)?;
             stack.push(v);
             Ok(())
         }
@@ -807,7 +1184,7 @@ fn apply_op(stack: &mut Vec<DV>, op: &mut Op, arena: &mut Vec<Leaf>, via: &str) 
                 stack.push(top);
                 return Err(Rej::Skip);
             }
-            let v = expand_op(top, extra, via)?;
+            let v = expand_op(top, extra, arena, prev_leaf, via)?;
             stack.push(v);
             Ok(())
         }
@@ -825,7 +1202,7 @@ fn apply_op(stack: &mut Vec<DV>, op: &mut Op, arena: &mut Vec<Leaf>, via: &str) 
                 stack.push(top);
                 return Err(Rej::Skip);
             }
-            let v = dv_same!(top, s => names_op(s, kind, names, posts, stack, via))?;
+            let v = dv_same!(top, s => names_op(s, kind, names, posts, stack, leaf_ptr(arena, prev_leaf), via))?;
             stack.push(v);
             Ok(())
         }
@@ -970,6 +1347,56 @@ fn set_write<const D: usize>(v: &mut Dyn<D>, idx: &[usize], via: &str) -> Result
     }
 }
 
+/// every element in row-major order, read off the `Display` of a TensorView over the view
+fn display<const D: usize>(v: &Dyn<D>, via: &str) -> String {
+    let shape = v.view_shape();
+    let n: usize = shape.iter().map(|d| d.1).product();
+    if n > 64 {
+        return "skip".into();
+    }
+    match catch(|| {
+        if via == "access" {
+            // `Display for TensorAccess` prints the same table followed by a line about the layout
+            let text = format!("{}", TensorAccess::from_source_order(v));
+            text.lines().filter(|l| !l.starts_with("Data Layout")).collect::<Vec<_>>().join("\n")
+        } else {
+            format!("{}", TensorView::from(v))
+        }
+    }) {
+        Ok(text) => format!("shape={} cells={}", show_shape(&shape), cells_of_display(&text, D)),
+        Err(k) => panic_str(k),
+    }
+}
+
+/// the numbers a `Display` of a tensor prints, after its header lines
+fn cells_of_display(text: &str, d: usize) -> String {
+    let body: String = text.lines().skip(if d == 0 { 1 } else { 2 }).collect::<Vec<_>>().join(" ");
+    body.split(|c: char| !c.is_ascii_digit())
+        .filter(|t| !t.is_empty())
+        .map(|t| format!("some({})", show_cell(t.parse::<u64>().unwrap())))
+        .collect::<Vec<_>>()
+        .join(" ")
+}
+
+/// `TensorView::length_of` / `last_index_of` (and `Tensor::length_of` / `last_index_of` when the
+/// view is a bare tensor leaf)
+fn length_of<const D: usize>(v: &Dyn<D>, name: &'static str, leaf: Option<*mut Tensor<u64, D>>) -> String {
+    let show = |o: Option<usize>| match o {
+        Some(n) => n.to_string(),
+        None => "none".to_string(),
+    };
+    let view = TensorView::from(v);
+    let (length, last) = (view.length_of(name), view.last_index_of(name));
+    if let Some(p) = leaf {
+        // the leaf is only borrowed (mutably) by the view: read its shape through the view's data
+        let t: &Tensor<u64, D> = unsafe { &*p };
+        if t.length_of(name) != length || t.last_index_of(name) != last {
+            return "tensor-and-view-disagree".into();
+        }
+    }
+    format!("length={} last={}", show(length), show(last))
+}
+
 fn show_layout<const D: usize>(l: &DataLayout<D>) -> String {
     match l {
         DataLayout::Linear(order) => format!("linear={}", show_names(order)),
@@ -1054,8 +1481,22 @@ impl Runner {
         Runner { arena: vec![], recipe: vec![], stack: Some(vec![]), script: None }
     }
 
+    /// the arena slot of the leaf the last accepted operation pushed (the top is then a bare leaf)
+    fn prev_leaf_of(recipe: &[(Op, String)]) -> Option<usize> {
+        match recipe.last() {
+            Some((Op::Leaf { slot, .. }, _)) => *slot,
+            _ => None,
+        }
+    }
+
+    /// does some view of the case own a copy of a leaf (so that writes do not reach the arena)?
+    fn has_owned_copies(&self) -> bool {
+        self.recipe.iter().any(|(_, via)| via.starts_with("t_owned") || via.starts_with("t_view_owned"))
+    }
+
     fn reset(&mut self) {
         self.stack = None;
+        drop_leaks();
         self.recipe.clear();
         for l in self.arena.drain(..) {
             l.free();
@@ -1066,10 +1507,13 @@ impl Runner {
 
     fn rebuild(&mut self) {
         self.stack = None; // drop every borrow of the leaves first
+        drop_leaks();
         let mut stack = vec![];
         let mut recipe = std::mem::take(&mut self.recipe);
-        for (op, via) in recipe.iter_mut() {
-            let r = catch(|| apply_op(&mut stack, op, &mut self.arena, via));
+        for i in 0..recipe.len() {
+            let prev = Runner::prev_leaf_of(&recipe[..i]);
+            let (op, via) = &mut recipe[i];
+            let r = catch(|| apply_op(&mut stack, op, &mut self.arena, prev, via));
             if !matches!(r, Ok(Ok(()))) {
                 panic!("recipe replay failed: {:?}", op);
             }
@@ -1087,7 +1531,8 @@ impl Runner {
 
     fn construct(&mut self, mut op: Op, via: &str) -> String {
         let mut stack = std::mem::take(self.stack_mut());
-        let r = catch(|| apply_op(&mut stack, &mut op, &mut self.arena, via));
+        let prev = Runner::prev_leaf_of(&self.recipe);
+        let r = catch(|| apply_op(&mut stack, &mut op, &mut self.arena, prev, via));
         match r {
             Ok(Ok(())) => {
                 let ans = format!("ok shape={}", show_shape(&stack.last().unwrap().shape()));
@@ -1137,7 +1582,8 @@ impl Runner {
         self.rebuild();
         let mut stack = std::mem::take(self.stack_mut());
         LAST_SET_NAMES.with(|c| c.set(None));
-        let r = catch(|| apply_op(&mut stack, &mut op, &mut self.arena, &via));
+        let prev = Runner::prev_leaf_of(&self.recipe);
+        let r = catch(|| apply_op(&mut stack, &mut op, &mut self.arena, prev, &via));
         match r {
             Ok(Ok(())) => {
                 let shape = show_shape(&stack.last().unwrap().shape());
@@ -1162,6 +1608,46 @@ impl Runner {
                     Err(k) => panic_str(k),
                     _ => unreachable!(),
                 }
+            }
+        }
+    }
+
+    /// `source_ref()` / `sources_ref()` (mode 1) or `source()` / `sources()` followed by building
+    /// the adaptor again (mode 2) of the adaptor the last accepted constructor built.
+    fn sources(&mut self, mode: u8) -> String {
+        let has_accessor = matches!(
+            self.recipe.last(),
+            Some((Op::Index { .. }, _)) | Some((Op::Expand { .. }, _)) | Some((Op::Rename { .. }, _))
+                | Some((Op::Reverse { .. }, _)) | Some((Op::Access { .. }, _)) | Some((Op::Transpose { .. }, _))
+                | Some((Op::Stack { .. }, _)) | Some((Op::Chain { .. }, _))
+        );
+        if !has_accessor {
+            return "skip".into();
+        }
+        let (mut op, via) = self.recipe.pop().unwrap();
+        self.rebuild();
+        let mut stack = std::mem::take(self.stack_mut());
+        let prev = Runner::prev_leaf_of(&self.recipe);
+        INSPECTED.with(|c| c.borrow_mut().clear());
+        INSPECT.with(|c| c.set(mode));
+        let r = catch(|| apply_op(&mut stack, &mut op, &mut self.arena, prev, &via));
+        INSPECT.with(|c| c.set(0));
+        let seen: Vec<String> = INSPECTED.with(|c| c.borrow().clone());
+        self.recipe.push((op, via));
+        match r {
+            Ok(Ok(())) => {
+                self.stack = Some(stack);
+                if seen.is_empty() { "skip".into() } else { seen.join(" | ") }
+            }
+            Ok(Err(rej)) => {
+                drop(stack);
+                self.stack = None;
+                rej_str(&rej)
+            }
+            Err(k) => {
+                drop(stack);
+                self.stack = None;
+                panic_str(k)
             }
         }
     }
@@ -1206,6 +1692,7 @@ impl Runner {
             }
         };
         // drop the views, scan the leaves, restore
+        let owned_copies = self.has_owned_copies();
         self.stack = None;
         let mut changed: Vec<(u64, usize, u64)> = vec![];
         for leaf in &self.arena {
@@ -1224,6 +1711,11 @@ impl Runner {
             }
             Ok(Some(old)) => {
                 let expected = format!("some({})", show_cell(SENTINEL));
+                if owned_copies && changed.is_empty() && reread == expected {
+                    // the write went to a copy of a leaf owned by the view (dropped with it): the
+                    // value found behind the reference identifies the cell
+                    return format!("changed={}", show_cell(old));
+                }
                 if changed.len() == 1
                     && changed[0].2 == SENTINEL
                     && changed[0].0 * LEAF_MUL + changed[0].1 as u64 == old
@@ -1263,6 +1755,27 @@ impl Runner {
             ["set", idx_s, ..] => {
                 let idx = parse_usizes(idx_s);
                 self.set(&idx, via)
+            }
+            ["tmap", ..] => match self.stack_mut().last() {
+                // TensorMap is private to the library: exposing f(source[idx]) it is the identity
+                // on cells, which is what the dynamic engine can show of it
+                Some(top) => format!("ok shape={}", show_shape(&top.shape())),
+                None => "skip".into(),
+            },
+            ["display", ..] => match self.stack_mut().last() {
+                Some(top) => dv_each!(top, v => display(v, via)),
+                None => "skip".into(),
+            },
+            ["sources", ..] => self.sources(if via.starts_with("owned") { 2 } else { 1 }),
+            ["length_of", name, ..] => {
+                let name = intern(name);
+                let prev = Runner::prev_leaf_of(&self.recipe);
+                let _ = self.stack_mut();
+                let arena = &self.arena;
+                match self.stack.as_ref().unwrap().last() {
+                    Some(top) => dv_each!(top, v => length_of(v, name, leaf_ptr(arena, prev))),
+                    None => "skip".into(),
+                }
             }
             ["set_names", names, ..] => self.mutate(Post::SetNames(parse_names(names))),
             ["swap_source", ..] => self.mutate(Post::Swap),
@@ -1443,11 +1956,11 @@ impl Script {
     }
 }
 
-const STATIC_KEYS: [&str; 13] = [
+const STATIC_KEYS: [&str; 16] = [
     "stack_tuple2_refs", "stack_tuple3_mixed", "stack_tuple4_owned", "stack_array_boxed_ref",
     "chain_tuple2_mut", "chain_tuple3_refs", "chain_tuple4_owned", "chain_array3_refs",
     "matrix_backed", "tensor_methods", "matrix_of_tensor_view", "rename_setters",
-    "reverse_swap_source",
+    "reverse_swap_source", "record_display_map", "boxed_dyn_ref", "shared_receivers",
 ];
 
 fn static_case(key: &str) -> Vec<(String, String)> {
@@ -1665,6 +2178,131 @@ fn static_case(key: &str) -> Vec<(String, String)> {
             s.rec("swap_source via=static".into(), format!("ok shape={}", show_shape(&rev.view_shape())));
             s.probe(&rev);
             s.probe_mut(&mut rev);
+        }
+        "record_display_map" => {
+            // `TensorMap` is private to the library; its one use is `Display for RecordTensor`, which
+            // prints f(source[idx]) with f = |(x, _)| x over whatever view the record tensor is over
+            use easy_ml::differentiation::RecordTensor;
+            fn pairs<const D: usize>(id: u64, shape: [(&'static str, usize); D]) -> Tensor<(i64, usize), D> {
+                let n: usize = shape.iter().map(|d| d.1).product();
+                Tensor::from(shape, (0..n).map(|k| ((id * LEAF_MUL + k as u64) as i64, 7 * k + 3)).collect())
+            }
+            fn shown<S: TensorRef<(i64, usize), D>, const D: usize>(s: &mut Script, view: S) {
+                let shape = view.view_shape();
+                let record: RecordTensor<i64, S, D> = RecordTensor::from_existing(None, TensorView::from(view));
+                s.rec("tmap via=static".into(), format!("ok shape={}", show_shape(&record.shape())));
+                let ans = match catch(|| format!("{}", record)) {
+                    Ok(text) => format!("shape={} cells={}", show_shape(&shape), cells_of_display(&text, D)),
+                    Err(k) => panic_str(k),
+                };
+                s.rec("display via=static".into(), ans);
+            }
+            // 2 dimensions: reversal of a range
+            let t = pairs(1, [("a", 3), ("b", 3)]);
+            s.rec("leaf 1 a:3,b:3 via=static".into(), "ok shape=a:3,b:3".into());
+            let r = TensorRange::from(&t, [("b", IndexRange::new(1, 2))]).unwrap();
+            s.rec("range b:1:2 via=static".into(), "ok shape=a:3,b:2".into());
+            let v = TensorReverse::from(r, &["a"]);
+            s.rec("reverse a via=static".into(), "ok shape=a:3,b:2".into());
+            shown(&mut s, v);
+            // 3 dimensions: a transposition of a mask
+            let t = pairs(2, [("a", 2), ("b", 3), ("c", 2)]);
+            s.rec("leaf 2 a:2,b:3,c:2 via=static".into(), "ok shape=a:2,b:3,c:2".into());
+            let m = TensorMask::from(&t, [("b", IndexRange::new(0, 1))]).unwrap();
+            s.rec("mask b:0:1 via=static".into(), "ok shape=a:2,b:2,c:2".into());
+            let v = TensorTranspose::from(m, ["c", "a", "b"]);
+            s.rec("transpose c,a,b via=static".into(), format!("ok shape={}", show_shape(&v.view_shape())));
+            shown(&mut s, v);
+            // 4 dimensions (the iterator / unchecked path of the formatter): a reordering
+            let t = pairs(3, [("a", 2), ("b", 1), ("c", 2), ("d", 2)]);
+            s.rec("leaf 3 a:2,b:1,c:2,d:2 via=static".into(), "ok shape=a:2,b:1,c:2,d:2".into());
+            let v = TensorAccess::from(&t, ["d", "a", "c", "b"]);
+            s.rec("access d,a,c,b via=static".into(), format!("ok shape={}", show_shape(&v.view_shape())));
+            shown(&mut s, v);
+            // 1 and 0 dimensions: a chain, a selection
+            let t1 = pairs(4, [("a", 2)]);
+            let t2 = pairs(5, [("a", 3)]);
+            s.rec("leaf 4 a:2 via=static".into(), "ok shape=a:2".into());
+            s.rec("leaf 5 a:3 via=static".into(), "ok shape=a:3".into());
+            let v = TensorChain::<(i64, usize), (_, _), 1>::from((&t1, &t2), "a");
+            s.rec("chain 2 a via=static".into(), "ok shape=a:5".into());
+            shown(&mut s, v);
+            let t6 = pairs(6, [("a", 3)]);
+            s.rec("leaf 6 a:3 via=static".into(), "ok shape=a:3".into());
+            let v = TensorIndex::<(i64, usize), _, 1, 1>::from(&t6, [("a", 1)]);
+            s.rec("index a:1 via=static".into(), "ok shape=-".into());
+            shown(&mut s, v);
+        }
+        "boxed_dyn_ref" => {
+            // `Box<dyn TensorRef>` (shared, type erased) and a sized `Box<S>` as views of their own
+            let t = s.leaf(1, [("a", 2), ("b", 3)]);
+            let b: Box<dyn TensorRef<u64, 2>> = Box::new(t);
+            s.probe(&b);
+            s.memorder(&b);
+            let tr = TensorTranspose::from(b, ["b", "a"]);
+            s.built("transpose b,a", &tr);
+            let bb: Box<TensorTranspose<u64, Box<dyn TensorRef<u64, 2>>, 2>> = Box::new(tr);
+            s.probe(&bb);
+            s.memorder(&bb);
+        }
+        "shared_receivers" => {
+            // the `&self` convenience methods of Tensor and TensorView not used elsewhere
+            let t = s.leaf(1, [("a", 2), ("b", 3)]);
+            let e = t.expand([(1, "x")]);
+            s.built("expand 1:x", e.source_ref());
+            s.probe(e.source_ref());
+            let r = e.range([("b", 1..3)]).unwrap();
+            s.built("range b:1:2", r.source_ref());
+            s.probe(r.source_ref());
+            s.rec("length_of b via=static".into(), format!("length={} last={}",
+                r.length_of("b").map_or("none".to_string(), |n| n.to_string()),
+                r.last_index_of("b").map_or("none".to_string(), |n| n.to_string())));
+            s.rec("length_of q via=static".into(), format!("length={} last={}",
+                r.length_of("q").map_or("none".to_string(), |n| n.to_string()),
+                r.last_index_of("q").map_or("none".to_string(), |n| n.to_string())));
+            let rv = r.reverse(&["x", "a"]);
+            s.built("reverse x,a", rv.source_ref());
+            s.probe(rv.source_ref());
+            let a = rv.index_by(["b", "a", "x"]);
+            s.built("access b,a,x", &a);
+            s.probe(&a);
+            // `&Tensor` receivers and the `From` conversions into a TensorView
+            let t2 = s.leaf(2, [("a", 2), ("b", 3), ("c", 2)]);
+            let m = t2.mask([("c", 1..2)]).unwrap();
+            s.built("mask c:1:1", m.source_ref());
+            s.probe(m.source_ref());
+            let again = <TensorView<u64, &TensorMask<u64, &Tensor<u64, 3>, 3>, 3> as From<&TensorView<u64, TensorMask<u64, &Tensor<u64, 3>, 3>, 3>>>::from(&m);
+            s.probe(again.source_ref());
+            let mut t3 = s.leaf(3, [("a", 2), ("b", 3)]);
+            {
+                let rv = t3.reverse(&["b"]);
+                s.built("reverse b", rv.source_ref());
+                s.probe(rv.source_ref());
+            }
+            let t4 = s.leaf(4, [("a", 2), ("b", 3)]);
+            let sel = t4.select([("b", 2)]);
+            s.built("index b:2", sel.source_ref());
+            s.probe(sel.source_ref());
+            let t5 = s.leaf(5, [("a", 2), ("b", 3)]);
+            let tr = t5.transpose_view(["b", "a"]);
+            s.built("transpose b,a", tr.source_ref());
+            s.probe(tr.source_ref());
+            s.memorder(tr.source_ref());
+            let rn = tr.rename_view(["p", "q"]);
+            s.built("rename p,q", rn.source_ref());
+            s.probe(rn.source_ref());
+            s.memorder(rn.source_ref());
+            // a tensor as a view of itself: `view`, `view_mut`, `From<&Tensor>`, `From<&mut Tensor>`
+            let t6 = s.leaf(6, [("a", 2)]);
+            s.probe(t6.view().source_ref());
+            let v6: TensorView<u64, &Tensor<u64, 1>, 1> = TensorView::from(&t6);
+            s.probe(v6.source_ref());
+            {
+                let mut vm = t3.view_mut();
+                let _ = vm.source_ref_mut();
+            }
+            let vm: TensorView<u64, &mut Tensor<u64, 2>, 2> = TensorView::from(&mut t3);
+            let _ = vm;
         }
         other => panic!("unknown static case {}", other),
     }
